@@ -203,7 +203,7 @@ def check_interop(h):
                 'sid=' in req.query and req.seq_resp is not None:
             if c_disc and c_disc[0]['arg'] == 'transport error' and \
                     req.t_resp - EPS <= c_disc[0]['t'] <= \
-                    req.t_resp + rt + 1.0 and any(
+                    req.t_resp + 2 * rt + max(I, T) + 5 + 1.0 and any(
                         'Unexpected packet from server' in str(m[3])
                         for m in h.cw.logs):
                 out.append(V('any-burst-size',
